@@ -5,7 +5,7 @@
 // error from a cache too small to hold one operation).
 //@trusted [env] indexmap::IndexMap<PageId, MemFrame> is an insertion-ordered sequence of (key, frame) pairs with unique keys; contains_key/get/get_mut/insert/get_index/swap_remove_index/swap_remove/len/is_empty have the documented IndexMap semantics (swap_remove moves the last entry into the hole)
 //@trusted [env] MemFrame (Arc<RwLock<page>>): page_number()/is_free()/is_dirty() are pure observers of an abstract frame value; clone() yields a handle to the same page
-//@trusted [env] MemoryStats counters (Cell<u32>) do not influence any result
+//@trusted [env] MemoryStats::{cache_hit, cache_miss, eviction} return for every counter value (unit cachestats) and influence no result
 //@trusted [sub] in PageCache::clear the loop `for (_, frame) in self.frames.drain(..) { remaining_frames.push(frame) }` is replaced by the environment call drain_into (iterator adapters are outside Verus); in PageCache::remove the closure `.filter(|frame| frame.is_free())` is replaced by keep_if_free
 use vstd::prelude::*;
 
